@@ -1,6 +1,8 @@
 pub mod common;
 pub mod config;
 pub mod swarm;
+#[cfg(aquatic_verif)]
+mod verif_locks;
 pub mod workers;
 
 use std::thread::{available_parallelism, sleep, Builder, JoinHandle};
